@@ -394,3 +394,7 @@ Proof. intros ND R1 R2.
   - apply linearisations_agree; auto; [symmetry; exact P2|].
     intros a b S B. pose proof (before_in _ _ _ B) as (Ia & Ib). unfold strip in Ia, Ib. apply filter_In in Ia as (Ia & Ga), Ib as (Ib & Gb).
     exact (order_preserved sampling2 (length (strip c)) (strip c) ex2 ev2 (strip_nodup c ND) R2 a b Ga Gb B S). Qed.
+
+(* ---------- gauge discipline: every two-qubit gate finds the state right-canonical ---------- *)
+Theorem gauge_discipline ex : forallb (fun b => b) (gauge_run true (gauge_word ex)) = true.
+Proof. unfold gauge_word. induction ex as [|i ex IH]; simpl; [reflexivity|]. destruct (is_kind G2 i); simpl; exact IH. Qed.
